@@ -561,7 +561,7 @@ impl VisitMut for Rw {
                     m.method = Ident::new("as_mut", m.method.span());
                     self.log.push("R1 as_pin_mut -> as_mut".into());
                     None
-                } else if name.starts_with("poll_") && name.ends_with("_unpin") {
+                } else if (name.starts_with("poll_") || name == "start_send_unpin") && name.ends_with("_unpin") {
                     m.method = Ident::new(name.trim_end_matches("_unpin"), m.method.span());
                     self.log.push("R1 poll_*_unpin -> poll_*".into());
                     None
